@@ -1,8 +1,98 @@
 import AFV.Driver.Proto
+import AFV.Model.ArchTree
 namespace AFV.Driver.C27
-open Lean AFV.Proto
+open Lean AFV.Proto AFV.ArchTree
 
-/-- Handler for property C27 requests (stub: not implemented yet). -/
-def handle (_req : Json) : Json := err "unimplemented"
+def optInt? (j : Json) : Option (Option Int) :=
+  match j with
+  | .null => some none
+  | _ => (getInt? j).map some
+
+def val? (j : Json) : Option Val :=
+  match j with
+  | .str "inf" => some .inf
+  | .str "-inf" => some .ninf
+  | .str "nan" => some .nan
+  | _ => (getInt? j).map .fin
+
+def optVal? (j : Json) : Option (Option Val) :=
+  match j with
+  | .null => some none
+  | _ => (val? j).map some
+
+def parseAction (j : Json) : Option Action := do
+  let name ← (field? j "name").bind getStr?
+  let energy ← (field? j "energy").bind optInt?
+  let es ← (field? j "energy_scale").bind getInt?
+  let thr ← (field? j "throughput").bind optVal?
+  let ts ← (field? j "throughput_scale").bind getInt?
+  pure ⟨name, energy, es, thr, ts⟩
+
+def parseComp (j : Json) : Option Comp := do
+  let name ← (field? j "name").bind getStr?
+  let dummy ← (field? j "dummy").bind getBool?
+  let area ← (field? j "area").bind optInt?
+  let areaScale ← (field? j "area_scale").bind getInt?
+  let leak ← (field? j "leak").bind optInt?
+  let leakScale ← (field? j "leak_scale").bind getInt?
+  let energyScale ← (field? j "energy_scale").bind getInt?
+  let thrScale ← (field? j "throughput_scale").bind getInt?
+  let nPar ← (field? j "n_parallel").bind getInt?
+  let acts ← (field? j "actions").bind getArr?
+  let actions ← acts.toList.mapM parseAction
+  pure ⟨name, dummy, area, areaScale, leak, leakScale, energyScale, thrScale, nPar, actions⟩
+
+def parseFlags (j : Json) : Option Flags := do
+  let a ← getArr? j
+  if a.size != 4 then none else
+  let l ← a.toList.mapM getBool?
+  match l with
+  | [x, y, z, w] => pure ⟨x, y, z, w⟩
+  | _ => none
+
+def optIntJson : Option Int → Json
+  | none => Json.null
+  | some i => ofInt i
+
+def valJson : Val → Json
+  | .fin v => ofInt v
+  | .inf => Json.str "inf"
+  | .ninf => Json.str "-inf"
+  | .nan => Json.str "nan"
+
+def optValJson : Option Val → Json
+  | none => Json.null
+  | some v => valJson v
+
+def obsJson (o : Obs) : Json :=
+  Json.arr #[Json.str o.name, optIntJson o.area, optIntJson o.leak,
+    Json.arr (o.actions.map fun (n, e, t) => Json.arr #[Json.str n, optIntJson e, optValJson t]).toArray]
+
+def historyJson (v : Variant) (h : List Flags) (s : List CState) : Json :=
+  Json.arr ((runHistory v h s).map fun st => Json.arr ((observe st).map obsJson).toArray).toArray
+
+/-- The model covers components whose every cost is given or which are dummies (no external component model),
+with distinct component names and distinct action names per component. -/
+def inScope (cs : List Comp) : Bool :=
+  cs.all (fun c => c.costable && !hasDup (c.actions.map (·.name))) && !hasDup (cs.map (·.name))
+
+/-- ops:
+  {"op":"history","comps":[comp…],"history":[[area,energy,throughput,leak]…]} →
+     {"in_scope":bool,"current":[obs after call 1, …],"fixed":[…]}    obs = [[name,area,leak,[[action,energy,throughput]…]]…] -/
+def handle (req : Json) : Json :=
+  match (field? req "op").bind getStr? with
+  | some "history" =>
+    match (field? req "comps").bind getArr?, (field? req "history").bind getArr? with
+    | some cs, some hs =>
+      match cs.toList.mapM parseComp, hs.toList.mapM parseFlags with
+      | some comps, some h =>
+        let s := comps.map CState.init
+        Json.mkObj [
+          ("in_scope", Json.bool (inScope comps)),
+          ("current", historyJson .current h s),
+          ("fixed", historyJson .fixed h s)]
+      | _, _ => err "malformed"
+    | _, _ => err "malformed"
+  | _ => err "bad-op"
 
 end AFV.Driver.C27
